@@ -20,7 +20,9 @@ import (
 	"sort"
 	"strings"
 	"sync"
+	"sync/atomic"
 	"testing"
+	"time"
 
 	"pgregory.net/rapid"
 )
@@ -52,6 +54,10 @@ type Unit[C any] struct {
 	Rule  string // how cases are generated and what makes one non-trivial
 	Draw  func(*rapid.T) C
 	Check func(C) Verdict
+	// Guard: write every case to VERIF_FAIL.pending before running it (so that a
+	// fatal error, a race-detector abort or a hang leaves the case behind) and
+	// arm the hang watchdog.
+	Guard bool
 }
 
 type rec struct {
@@ -194,9 +200,20 @@ func trimStack(st []byte) string {
 func RunProp[C any](t *testing.T, prop string, u Unit[C]) {
 	r := newRec(prop, u.Name, u.Rule)
 	defer r.flush()
+	var g *guard
+	if u.Guard {
+		g = newGuard(prop, u.Name)
+		defer g.stop()
+	}
 	rapid.Check(t, func(rt *rapid.T) {
 		c := u.Draw(rt)
+		if g != nil {
+			g.begin(c)
+		}
 		v := u.Check(c)
+		if g != nil {
+			g.end()
+		}
 		r.record(c, v)
 		if v.Err != nil && v.Excluded == "" {
 			writeFail(prop, u.Name, c, v.Err.Error())
@@ -206,12 +223,32 @@ func RunProp[C any](t *testing.T, prop string, u Unit[C]) {
 	})
 }
 
+// Shard returns (k, n) of VERIF_SHARD="k/n" (0, 1 when unset).
+func Shard() (int, int) {
+	var k, n int
+	if _, err := fmt.Sscanf(os.Getenv("VERIF_SHARD"), "%d/%d", &k, &n); err != nil || n <= 0 {
+		return 0, 1
+	}
+	return k, n
+}
+
 // RunCases drives unit u over an explicit, enumerated list of cases.
 func RunCases[C any](t *testing.T, prop string, u Unit[C], cases []C) {
 	r := newRec(prop, u.Name, u.Rule)
 	defer r.flush()
+	var g *guard
+	if u.Guard {
+		g = newGuard(prop, u.Name)
+		defer g.stop()
+	}
 	for _, c := range cases {
+		if g != nil {
+			g.begin(c)
+		}
 		v := u.Check(c)
+		if g != nil {
+			g.end()
+		}
 		r.record(c, v)
 		if v.Err != nil && v.Excluded == "" {
 			writeFail(prop, u.Name, c, v.Err.Error())
@@ -219,6 +256,73 @@ func RunCases[C any](t *testing.T, prop string, u Unit[C], cases []C) {
 			t.Fatalf("%s/%s violated: %v\ncase: %s", prop, u.Name, v.Err, b)
 		}
 	}
+}
+
+// ---------- guard: pending case file and hang watchdog ----------
+
+// HangSeconds is the wall-clock time after which a single case is nominated
+// as a hang (the driver then confirms it under a CPU-time limit).
+var HangSeconds int64 = 30
+
+type guard struct {
+	prop, unit string
+	path       string
+	start      atomic.Int64 // unix nanos of the running case, 0 when idle
+	done       chan struct{}
+}
+
+func newGuard(prop, unit string) *guard {
+	g := &guard{prop: prop, unit: unit, done: make(chan struct{})}
+	if p := os.Getenv("VERIF_FAIL"); p != "" {
+		g.path = p + ".pending"
+	}
+	go func() {
+		tk := time.NewTicker(time.Second)
+		defer tk.Stop()
+		for {
+			select {
+			case <-g.done:
+				return
+			case <-tk.C:
+				st := g.start.Load()
+				if st != 0 && time.Now().UnixNano()-st > HangSeconds*int64(time.Second) {
+					if g.path != "" {
+						if b, err := os.ReadFile(g.path); err == nil {
+							_ = os.WriteFile(os.Getenv("VERIF_FAIL")+".hang", b, 0o644)
+						}
+					}
+					fmt.Printf("HANG-NOMINATED %s/%s: a case ran longer than %ds\n", prop, unit, HangSeconds)
+					os.Exit(3)
+				}
+			}
+		}
+	}()
+	return g
+}
+
+func (g *guard) begin(c any) {
+	if g.path != "" {
+		cb, err := json.Marshal(c)
+		if err == nil {
+			b, _ := json.Marshal(failFile{g.prop, g.unit, "pending", cb})
+			_ = os.WriteFile(g.path, b, 0o644)
+		}
+	}
+	g.start.Store(time.Now().UnixNano())
+}
+
+func (g *guard) end() { g.start.Store(0) }
+
+func (g *guard) stop() {
+	close(g.done)
+	if g.path != "" {
+		_ = os.Remove(g.path)
+	}
+}
+
+// ReportFuzzFailure lets a native fuzz target leave its failing case for the driver.
+func ReportFuzzFailure(prop, unit string, c any, err error) {
+	writeFail(prop, unit, c, err.Error())
 }
 
 // Replayer re-runs one saved case of a unit.
